@@ -1,6 +1,7 @@
 import MemcVerif.Model.Handler
 import MemcVerif.Proofs.BE
 import MemcVerif.Proofs.RespRT
+import MemcVerif.Proofs.TablesTie
 /-!
 # C11 — every response is a well-formed, correctly correlated frame
 
@@ -179,6 +180,18 @@ theorem C11_client_framing (rs : List (Req × Resp)) (hwf : ∀ p ∈ rs, wellFo
 example : wellFormed (.get ⟨0x80, 0x0c, 1, 0, 0, 0, 1, 7, 0⟩ [65])
     (.get { opcode := 0x0c, opaq := 7, extrasLen := 4, keyLen := 1, bodyLen := 7, cas := 3 } 9 [65] [1, 2]) = true := by decide
 
+/-! ## the tables of this property are the source's (regenerated from /repo on every run: `tools/gentables.py`) -/
+
+/-- status codes and message texts (`cache/error.rs`), the two magic bytes (`protocol/binary.rs`) and the version string
+    (`Cargo.toml` through `crate_version!`) of the model are those of the source as it is now -/
+theorem C11_tables_are_the_sources :
+    Holds Gen.errors (fun t => t = allErrors.map (fun e => (e.code, e.text))) ∧
+    Holds Gen.magic (fun m =>
+      headerValid { hdr0 with magic := m.1 } = true ∧ headerValid { hdr0 with magic := m.1 + 1 } = false ∧
+      (encodeHeader { opcode := 0, opaq := 0 }).head? = some (UInt8.ofNat m.2)) ∧
+    Holds Gen.version (fun v => v = VERSION) :=
+  ⟨tie_errors, tie_magic, tie_version⟩
+
 end Memc
 
 #print axioms Memc.errorResp_wf
@@ -192,3 +205,4 @@ end Memc
 #print axioms Memc.C11_magic_and_datatype
 #print axioms Memc.C11_header_roundtrip
 #print axioms Memc.C11_client_framing
+#print axioms Memc.C11_tables_are_the_sources
